@@ -5,6 +5,7 @@ use crate::ast::{
 };
 use crate::scheme::error::CompileError;
 use crate::scheme::manager::SchemeManager;
+use crate::scheme::string_literal;
 use crate::{Mode, SFlag};
 
 #[cfg(target_arch = "wasm32")]
@@ -107,11 +108,19 @@ fn compile_perm_check(buffer: &mut String, check: &PermCheck) {
     buffer.push_str(&code)
 }
 
+/// Text that is output as it stands by a `format` template: besides what a string literal
+/// requires, a tilde has to be doubled or it would start a directive
+fn template_text(text: &str) -> String {
+    string_literal(text).replace('~', "~~")
+}
+
 fn literal(special: &FormatSpecial) -> String {
     match special {
         FormatSpecial::Alarm => "\\a".to_string(),
-        FormatSpecial::Ascii(val) => format!("{}", char::from_u32(*val as u32).unwrap_or('0')),
-        FormatSpecial::Backslash => "\\".to_string(),
+        FormatSpecial::Ascii(val) => {
+            template_text(&char::from_u32(*val as u32).unwrap_or('0').to_string())
+        }
+        FormatSpecial::Backslash => template_text("\\"),
         FormatSpecial::Backspace => "\\b".to_string(),
         FormatSpecial::CarriageReturn => "\\r".to_string(),
         FormatSpecial::Clear => "\\c".to_string(),
@@ -207,21 +216,23 @@ fn snippet(field: &FormatField) -> CResult<Option<String>> {
 
         FormatField::AccessFormatted(f) => match f {
             '@' => "atime".to_string(),
-            f => format!("strftime \"%{f}\" (localtime (atime))"),
+            f => format!("strftime \"%{}\" (localtime (atime))", string_literal(&f.to_string())),
         }
         .to_string(),
 
         FormatField::ChangeFormatted(f) => match f {
             '@' => "ctime".to_string(),
-            f => format!("strftime \"%{f}\" (localtime (ctime))"),
+            f => format!("strftime \"%{}\" (localtime (ctime))", string_literal(&f.to_string())),
         },
 
         FormatField::ModifyFormatted(f) => match f {
             '@' => "mtime".to_string(),
-            f => format!("strftime \"%{f}\" (localtime (mtime))"),
+            f => format!("strftime \"%{}\" (localtime (mtime))", string_literal(&f.to_string())),
         },
 
-        FormatField::XAttr(attr) => format!("or (xattr-ref-string \"{attr}\") \"\"").to_owned(),
+        FormatField::XAttr(attr) => {
+            format!("or (xattr-ref-string \"{}\") \"\"", string_literal(attr))
+        }
 
         FormatField::Depth
         | FormatField::DeviceNumber
@@ -242,7 +253,7 @@ impl TargetScheme for Vec<FormatElement> {
         let template = self
             .iter()
             .map(|el| match el {
-                FormatElement::Literal(s) => Ok(s.clone()),
+                FormatElement::Literal(s) => Ok(template_text(s)),
                 FormatElement::Field(f) => placeholder(f).map(|s| s.to_string()),
                 FormatElement::Special(v) => Ok(literal(v)),
             })
@@ -286,7 +297,10 @@ impl TargetScheme for Test {
             Test::Name(s) => buffer.push_str(&format!("(call-with-name {})", ctx.get_matcher(s, false))),
             Test::Path(s) => buffer.push_str(&format!("(call-with-relative-path {})", ctx.get_matcher(s, false))),
             Test::Perm(check) => compile_perm_check(buffer, check),
-            Test::Pool(pool_name) => buffer.push_str(&format!("(member \"{pool_name}\" (lov-pools))")),
+            Test::Pool(pool_name) => buffer.push_str(&format!(
+                "(member \"{}\" (lov-pools))",
+                string_literal(pool_name)
+            )),
             Test::Readable => buffer.push_str("(readable)"),
             Test::Size(cmp) => compile_size_comp(buffer, &cmp),
             Test::StripeCount(cmp) => buffer.push_str(&format_cmp!(cmp, "lov-stripe-count")),
@@ -294,13 +308,16 @@ impl TargetScheme for Test {
             Test::Type(list) => compile_type_list_comp(buffer, list),
             Test::UserId(cmp) => buffer.push_str(&format_cmp!(cmp, "uid")),
             Test::Writable => buffer.push_str("(writable)"),
-            Test::Xattr(field) => buffer.push_str(&format!("(xattr? \"{field}\")")),
+            Test::Xattr(field) => {
+                buffer.push_str(&format!("(xattr? \"{}\")", string_literal(field)))
+            }
             Test::XattrMatch(field, value) => {
                 let offending = |c:char| {"*?['".contains(c)};
+                let (field_text, value_text) = (string_literal(field), string_literal(value));
                 if !(field.contains(offending) || value.contains(offending)) {
-                    buffer.push_str(&format!("(equal? (xattr-ref-string \"{field}\") \"{value}\")"));
+                    buffer.push_str(&format!("(equal? (xattr-ref-string \"{field_text}\") \"{value_text}\")"));
                 } else {
-                    buffer.push_str(&format!("(xattr-match? \"{field}\" \"{value}\")"));
+                    buffer.push_str(&format!("(xattr-match? \"{field_text}\" \"{value_text}\")"));
                 }
             }
 
